@@ -292,11 +292,9 @@ void anneal_puso(  // updates states and values in place
     }
 
     long *index = (long*)malloc(num_terms * sizeof(long));
-    index[0] = 0;
     for(long term=0; term<num_terms; term++) {
-        if(term) {
-            index[term] = index[term-1] + num_couplings[term-1];
-        }
+        // only write index[0] if there is at least one term
+        index[term] = term ? index[term-1] + num_couplings[term-1] : 0;
         for(i=0; i<num_couplings[term]; i++) {
             j = terms[index[term] + i];  // spin j is involved in term `term`.
             subgraphs[j][0]++; k = subgraphs[j][0];
